@@ -180,9 +180,21 @@ def random_proto_interface(rng, depth=2):
 
 # ---------------------------------------------------------------- running the generators
 
-def generate(kind, outdir, table=None, iface=None, ns="NS", name="X", copy_other=False, templatedir=""):
-    """Run one public entry point of kojen; returns its return value."""
+def generate(kind, outdir, table=None, iface=None, ns="NS", name="X", copy_other=False, templatedir="", holder=None):
+    """Run one public entry point of kojen; returns its return value.
+    holder (a dict, state-machine kinds only): the generator OBJECT is built once -- exactly as the entry point builds it -- kept in the
+    holder and its Generate() is called again on later calls (a tool that keeps its generator and regenerates when the model changes)."""
     with quiet():
+        if holder is not None and kind in ("cpp", "cs", "py"):
+            if "gen" not in holder:
+                from kojen import smgen, LanguageCPP, LanguageCsharp, LanguagePython
+                tdir, lang = {"cpp": ("statemachine_templates_embedded_arm", LanguageCPP.LanguageCPP),
+                              "cs": ("statemachine_templates_cs_winlinmac", LanguageCsharp.LanguageCsharp),
+                              "py": ("statemachine_templates_py", LanguagePython.LanguagePython)}[kind]
+                g = smgen.CStateMachineGenerator(templatedir or os.path.join(REPO, "kojen", tdir), outdir, iface, lang(), "a", "g", "b")
+                g.vpp_filename = "Transition Table"
+                holder["gen"] = g
+            return holder["gen"].Generate(table, ns, name, "", copy_other)
         if kind == "cpp":
             return Generate.StateMachine(outdir, table, iface, ns, name, "", "a", "g", "b", templatedir, "", copy_other)
         if kind == "cs":
